@@ -22,16 +22,19 @@ does not fit raises ExtractError -> stub file -> the C16 theorems do not build):
 `(Ea, T, k) -> <A-expr>` is built from its statements `T, k = T_k`, `R = _get_R(...)` and that return.
 """
 import ast, copy
-from .common import parse, ExtractError, find_def
+from .common import parse, ExtractError, find_def, lean_str, HEADER
 from . import pyfn2lean as P
 
-FILES = ['FnRateConst.lean']
+FILES = ['FnRateConst.lean', 'RatesSrc.lean']
 ARR = 'chempy/kinetics/arrhenius.py'
 EYR = 'chempy/kinetics/eyring.py'
 HELPERS = {'_get_R': 'getR', '_get_kB_over_h': 'getKBOverH'}
 
 
 class _Rewrite(ast.NodeTransformer):
+    def __init__(self):
+        self.discarded = []      # ast.dump of the `try:` bodies dropped here -> hashed into the signature record (pyfn2lean @skipped)
+
     def visit_Try(self, node):
         self.generic_visit(node)
         if (len(node.handlers) == 1 and isinstance(node.handlers[0].type, ast.Name)
@@ -39,6 +42,7 @@ class _Rewrite(ast.NodeTransformer):
                 and len(node.body) == 1 and isinstance(node.body[0], ast.Assign)
                 and any(isinstance(x, ast.Attribute) and x.attr in ('rescale', 'simplified') for x in ast.walk(node.body[0]))):
             body = node.handlers[0].body
+            self.discarded += [ast.dump(x) for x in node.body]
             return body            # the plain-number branch (may be `pass`)
         raise ExtractError('line %d: try-statement of an unknown shape' % node.lineno)
 
@@ -57,11 +61,17 @@ def _fn(tree, cls, name):
     scope = find_def(tree, cls) if cls else tree
     if cls and not isinstance(scope, ast.ClassDef):
         raise ExtractError('%s is not a class' % cls)
-    for n in scope.body:
-        if isinstance(n, ast.FunctionDef) and n.name == name:
-            f = _Rewrite().visit(copy.deepcopy(n))
-            f.decorator_list = []
-            return ast.Module(body=[f], type_ignores=[])
+    hits = [n for n in scope.body if isinstance(n, ast.FunctionDef) and n.name == name]
+    if len(hits) > 1:
+        raise ExtractError('%s%s is defined %d times' % (cls + '.' if cls else '', name, len(hits)))
+    if not cls:
+        P.find_unique_def(tree, name)          # also: not rebound at module level
+    for n in hits:
+        rw = _Rewrite()
+        f = rw.visit(copy.deepcopy(n))         # decorators are KEPT: translate_function rejects a decorated function
+        m = ast.Module(body=[f], type_ignores=[])
+        m.discarded = rw.discarded
+        return m
     raise ExtractError('no function %s%s' % (cls + '.' if cls else '', name))
 
 
@@ -69,6 +79,8 @@ def _from_rateconst(tree):
     """synthetic `def from_rateconst_A(Ea, T, k)` from ArrheniusParam.from_rateconst_at_T"""
     m = _fn(tree, 'ArrheniusParam', 'from_rateconst_at_T')
     f = m.body[0]
+    if [ast.unparse(d) for d in f.decorator_list] != ['classmethod']:
+        raise ExtractError('from_rateconst_at_T: expected exactly the decorator @classmethod')
     params = [a.arg for a in f.args.args]
     if params[:3] != ['cls', 'Ea', 'T_k']:
         raise ExtractError('from_rateconst_at_T: unexpected signature %r' % params)
@@ -98,6 +110,7 @@ def _from_rateconst(tree):
         body=body + [ast.Return(value=c.args[0])], decorator_list=[], lineno=f.lineno, col_offset=0)
     mod = ast.Module(body=[g], type_ignores=[])
     ast.fix_missing_locations(mod)
+    mod.discarded = m.discarded
     return mod
 
 
@@ -107,20 +120,92 @@ def generate(repo):
     calls = dict(HELPERS)
     none2 = {'constants': None, 'units': None}
     parts = []
-    parts.append(P.translate_function(asrc, _fn(atree, None, '_get_R'), '_get_R', lean_name='getR', params=[]))
-    parts.append(P.translate_function(esrc, _fn(etree, None, '_get_kB_over_h'), '_get_kB_over_h', lean_name='getKBOverH', params=[]))
-    parts.append(P.translate_function(asrc, _fn(atree, None, 'arrhenius_equation'), 'arrhenius_equation',
+
+    def TF(src, mod, *a, **kw):          # the discarded `try:` bodies go into the signature record
+        return P.translate_function(src, mod, *a, extra_skipped=mod.discarded, **kw)
+    parts.append(TF(asrc, _fn(atree, None, '_get_R'), '_get_R', lean_name='getR', params=[]))
+    parts.append(TF(esrc, _fn(etree, None, '_get_kB_over_h'), '_get_kB_over_h', lean_name='getKBOverH', params=[]))
+    parts.append(TF(asrc, _fn(atree, None, 'arrhenius_equation'), 'arrhenius_equation',
                                       lean_name='arrheniusEquation', params=['A', 'Ea', 'T'], extra_calls=calls, inline_lets=True))
-    parts.append(P.translate_function(esrc, _fn(etree, None, 'eyring_equation'), 'eyring_equation',
+    parts.append(TF(esrc, _fn(etree, None, 'eyring_equation'), 'eyring_equation',
                                       lean_name='eyringEquation', params=['dH', 'dS', 'T'], extra_calls=calls, inline_lets=True))
-    parts.append(P.translate_function(asrc, _from_rateconst(atree), 'from_rateconst_A', lean_name='arrheniusFromRateconstA',
+    parts.append(TF(asrc, _from_rateconst(atree), 'from_rateconst_A', lean_name='arrheniusFromRateconstA',
                                       params=['Ea', 'T', 'k'], extra_calls=calls, inline_lets=True,
                                       doc='first constructor argument of `ArrheniusParam.from_rateconst_at_T(Ea, (T, k))`'))
-    parts.append(P.translate_function(asrc, _fn(atree, 'ArrheniusParam', 'Ea_over_R'), 'Ea_over_R', lean_name='arrheniusEaOverR',
+    parts.append(TF(asrc, _fn(atree, 'ArrheniusParam', 'Ea_over_R'), 'Ea_over_R', lean_name='arrheniusEaOverR',
                                       params=[], objects=('self',), fixed=none2, extra_calls=calls, inline_lets=True))
-    parts.append(P.translate_function(esrc, _fn(etree, 'EyringParam', 'kB_h_times_exp_dS_R'), 'kB_h_times_exp_dS_R',
+    parts.append(TF(esrc, _fn(etree, 'EyringParam', 'kB_h_times_exp_dS_R'), 'kB_h_times_exp_dS_R',
                                       lean_name='eyringKBhExpDSR', params=[], objects=('self',), fixed=none2,
                                       extra_calls=calls, inline_lets=True))
-    parts.append(P.translate_function(esrc, _fn(etree, 'EyringParam', 'dH_over_R'), 'dH_over_R', lean_name='eyringDHOverR',
+    parts.append(TF(esrc, _fn(etree, 'EyringParam', 'dH_over_R'), 'dH_over_R', lean_name='eyringDHOverR',
                                       params=[], objects=('self',), fixed=none2, extra_calls=calls, inline_lets=True))
-    return {'FnRateConst.lean': P.wrap_module(parts, ARR + ', ' + EYR)}
+    return {'FnRateConst.lean': P.wrap_module(parts, ARR + ', ' + EYR), 'RatesSrc.lean': _sources(repo)}
+
+
+# ---- source texts of the hand-modelled `__call__` bodies (guards) -----------------------------------------------
+# (file, path of nested def/class names, Lean name).  The text is `ast.unparse` of the body without its docstring:
+# insensitive to comments / layout, sensitive to any change of the code.  `Props/C16.lean` holds one `…_guard` theorem per
+# entry comparing it with the text the hand model `Model/Expr.call` was written from.
+SRC = [
+    ('chempy/kinetics/rates.py', ['MassAction', 'active_conc_prod'], 'srcMassActionConcProd'),
+    ('chempy/kinetics/rates.py', ['MassAction', 'rate_coeff'], 'srcMassActionRateCoeff'),
+    ('chempy/kinetics/rates.py', ['MassAction', '__call__'], 'srcMassActionCall'),
+    ('chempy/kinetics/rates.py', ['Arrhenius', '__call__'], 'srcArrheniusCall'),
+    ('chempy/kinetics/rates.py', ['Eyring', '__call__'], 'srcEyringCall'),
+    ('chempy/kinetics/rates.py', ['EyringHS', '__call__'], 'srcEyringHSCall'),
+    ('chempy/kinetics/rates.py', ['mk_Radiolytic', '_Radiolytic', '__call__'], 'srcRadiolyticCall'),
+    ('chempy/kinetics/rates.py', ['RampedTemp', '__call__'], 'srcRampedTempCall'),
+    ('chempy/kinetics/rates.py', ['SinTemp', '__call__'], 'srcSinTempCall'),
+    ('chempy/thermodynamics/expressions.py', ['MassActionEq', 'eq_const'], 'srcMassActionEqConst'),
+    ('chempy/thermodynamics/expressions.py', ['MassActionEq', '__call__'], 'srcMassActionEqCall'),
+    ('chempy/thermodynamics/expressions.py', ['GibbsEqConst', 'eq_const'], 'srcGibbsEqConst'),
+    ('chempy/util/_expr.py', ['create_Poly', '_poly'], 'srcPoly'),
+    ('chempy/util/_expr.py', ['create_Piecewise', '_pw'], 'srcPiecewise'),
+    ('chempy/util/_expr.py', ['Expr', 'from_callback', 'body'], 'srcFromCallbackBody'),
+    ('chempy/util/_expr.py', ['UnaryFunction', '__call__'], 'srcUnaryFunctionCall'),
+    ('chempy/util/_expr.py', ['Log10', '__call__'], 'srcLog10Call'),
+    ('chempy/util/_expr.py', ['_BinaryExpr', '__call__'], 'srcBinaryCall'),
+    ('chempy/util/_expr.py', ['_NegExpr', '__call__'], 'srcNegCall'),
+    ('chempy/util/_expr.py', ['Constant', '__call__'], 'srcConstantCall'),
+    ('chempy/util/_expr.py', ['Symbol', '__call__'], 'srcSymbolCall'),
+]
+
+
+def _descend(tree, path, rel):
+    node = tree
+    for name in path:
+        for n in ast.walk(node):
+            if n is not node and isinstance(n, (ast.FunctionDef, ast.ClassDef)) and n.name == name:
+                node = n
+                break
+        else:
+            raise ExtractError('%s: no %s' % (rel, '.'.join(path)))
+    return node
+
+
+def source_texts(repo):
+    out = []
+    cache = {}
+    for rel, path, lname in SRC:
+        if rel not in cache:
+            cache[rel] = parse(repo, rel)[1]
+        f = _descend(cache[rel], path, rel)
+        body = list(f.body)
+        if body and isinstance(body[0], ast.Expr) and isinstance(body[0].value, ast.Constant) and isinstance(body[0].value.value, str):
+            body = body[1:]
+        sig = ast.unparse(f.args)
+        text = 'def(%s): ' % sig + '; '.join(ast.unparse(st).replace('\n', ' ') for st in body)
+        out.append((lname, '.'.join(path), rel, ' '.join(text.split())))
+    return out
+
+
+def _sources(repo):
+    lines = [HEADER % 'chempy/kinetics/rates.py, chempy/thermodynamics/expressions.py, chempy/util/_expr.py',
+             'namespace ChemModel.Gen', '']
+    for lname, path, rel, text in source_texts(repo):
+        lines.append('/-- code of `%s` (%s), normalised by `ast.unparse` -/' % (path, rel))
+        lines.append('def %s : String := %s' % (lname, lean_str(text)))
+        lines.append('')
+    lines.append('end ChemModel.Gen')
+    return '\n'.join(lines) + '\n'
+
